@@ -345,3 +345,172 @@ for _phase, (_mod, _clsname, _parts_attr, _k, _s, _x) in FROM_PARTS.items():
                        == [('parse-parts', self.instruction_parts_parser, (fs_location_info, source))],
                },
                raises={ArbitraryException: {}}, raises_only=())
+
+
+# ====================================================================================== 1c: assertion parts
+from exactly_lib.impls.instructions.assert_.utils import assertion_part as ap
+from exactly_lib.impls.exception import pfh_exception
+from exactly_lib.type_val_deps.dep_variants.sdv import sdv_validation
+
+P_AP = 'exactly_lib.impls.instructions.assert_.utils.assertion_part'
+
+PFH_ENUM = pfh.PassOrFailOrHardErrorEnum
+
+
+def _mk_pfh_exception(interp, o):
+    """PfhFailException / PfhHardErrorException: "the assertion part does not PASS" (its docstring)"""
+    if interp.st.choose(2) == 0:
+        e = pfh_exception.PfhFailException.__new__(pfh_exception.PfhFailException)
+        e._status = PFH_ENUM.FAIL
+    else:
+        e = pfh_exception.PfhHardErrorException.__new__(pfh_exception.PfhHardErrorException)
+        e._status = PFH_ENUM.HARD_ERROR
+    e._err_msg = Any_.make(interp, 'pfh_exception.err_msg')
+    return e
+
+
+class PartCheckI(Interface):
+    """the `check` of a concrete assertion part (arbitrary code): returns a value for the next part, raises
+    PfhException (documented), HardErrorException, or anything else"""
+    methods = {'check': Method(returns=Any_, may_raise=(_mk_pfh_exception,) + c01.RAISES, event='part-check')}
+
+
+class _AnyAssertionPart(ap.AssertionPart):
+    """a concrete assertion part: `check` is opaque; the rest is the real base class"""
+
+    def check(self, environment, os_services, value_to_check):
+        return self._impl.check(environment, os_services, value_to_check)
+
+
+M.contract(P_AP + ':AssertionPart.check_and_return_pfh',
+           params=dict(self=Inst(_AnyAssertionPart, _validator=Iface(ValidatorI), _impl=Iface(PartCheckI)),
+                       environment=Any_, os_services=Any_, value_to_check=Any_),
+           returns=PFH,
+           ensures={
+               'one check, of the value given; no validation': lambda self, environment, os_services, value_to_check, trace:
+               steps(trace) == [('part-check', self._impl, (environment, os_services, value_to_check))],
+               'PASS iff the check returns; a PfhException is the status and message it stands for':
+                   lambda result, trace:
+                   (result.status is PFH_ENUM.PASS) if outcome_event(trace, 'part-check')[0] == 'returned' else
+                   (result.status is outcome_event(trace, 'part-check')[1]._status
+                    and result.failure_message is outcome_event(trace, 'part-check')[1].err_msg),
+           },
+           raises={HardErrorException: {'ensures': lambda exc, trace: outcome_event(trace, 'part-check') == ('raised', exc)},
+                   ArbitraryException: {'ensures': lambda exc, trace: outcome_event(trace, 'part-check') == ('raised', exc)}},
+           raises_only=())
+
+
+class AssertionPartI(Interface):
+    """an AssertionPart as the instruction made of it sees it"""
+    target_class = ap.AssertionPart
+    attrs = {'validator': Iface(ValidatorI), 'references': Any_}
+    methods = {'check_and_return_pfh': Method(returns=PFH, may_raise=c01.RAISES, event='part-check')}
+
+
+class GetArgI(Interface):
+    methods = {'__call__': Method(returns=Any_, may_raise=c01.RAISES, event='get-arg')}
+
+
+class HeaderI(Interface):
+    methods = {'__call__': Method(returns=Any_, may_raise=c01.RAISES, event='failure-header')}
+
+
+class TmpDirAccessI(Interface):
+    attrs = {'paths_access': Any_}
+
+
+class PostSdsInstructionEnvI(InstructionEnvI):
+    attrs = {'symbols': Any_, 'tcds': Any_, 'hds': Any_, 'proc_exe_settings': Any_, 'mem_buff_size': Any_,
+             'tmp_dir__path_access': Iface(TmpDirAccessI)}
+
+
+def _mk_instruction_of_part(interp, name):
+    x = object.__new__(ap.AssertionInstructionFromAssertionPart)
+    x._assertion_part = Iface(AssertionPartI).make(interp, name + '.part')
+    x._get_argument_to_assertion_part = Iface(GetArgI).make(interp, name + '.get_arg')
+    v = object.__new__(svh_validators.PreOrPostSdsSvhValidationErrorValidator)
+    v.validator = interp.getattr(x._assertion_part, 'validator')
+    x._validator = v
+    x._failure_message_header = Opt(Iface(HeaderI)).make(interp, name + '.header')
+    return x
+
+
+INSTRUCTION_OF_PART = Custom(_mk_instruction_of_part)
+Q_IOP = P_AP + ':AssertionInstructionFromAssertionPart'
+
+M.contract(Q_IOP + '.__init__',
+           params=dict(self=Inst(ap.AssertionInstructionFromAssertionPart), assertion_part=Iface(AssertionPartI),
+                       get_argument_to_part=Iface(GetArgI), failure_message_header=Opt(Iface(HeaderI))),
+           inline=True,
+           ensures={'holds the part; its svh-validator wraps the validator of the part': lambda self, assertion_part:
+           self._assertion_part is assertion_part
+           and type(self._validator) is svh_validators.PreOrPostSdsSvhValidationErrorValidator
+           and self._validator.validator is assertion_part.validator,
+                    'runs nothing': lambda trace: trace == []},
+           raises_only=())
+
+M.contract(Q_IOP + '.symbol_usages', params=dict(self=INSTRUCTION_OF_PART),
+           ensures={'the references of the part; runs nothing': lambda self, result, trace:
+           result is self._assertion_part.references and trace == []}, raises_only=())
+
+M.contract(Q_IOP + '.validate_pre_sds', params=dict(self=INSTRUCTION_OF_PART, environment=Iface(InstructionEnvI)),
+           returns=SVH,
+           ensures={
+               'only the pre-sds part of the validator of the assertion part, once, in the environment given; no check':
+                   lambda self, environment, trace:
+                   steps(trace) == [('validate-pre', self._assertion_part.validator,
+                                     (environment.path_resolving_environment,))],
+               'VALIDATION_ERROR iff the validator reports an error, with its message': lambda result, trace:
+               svh_kind(result) == (None if outcome_event(trace, 'validate-pre')[1] is None else 'VALIDATION_ERROR')
+               and result.failure_message is outcome_event(trace, 'validate-pre')[1],
+           },
+           raises={ArbitraryException: {'ensures': lambda exc, trace:
+           outcome_event(trace, 'validate-pre') == ('raised', exc)}},
+           raises_only=())
+
+M.contract(Q_IOP + '.main',
+           params=dict(self=INSTRUCTION_OF_PART, environment=Iface(PostSdsInstructionEnvI), settings=Any_,
+                       os_services=Any_),
+           returns=PFH,
+           ensures={
+               'post-sds validation of the part first; iff it has nothing to say: the argument is computed and the '
+               'part checked with it -- once; nothing else': lambda self, environment, os_services, trace:
+               steps(trace) == [('validate-post', self._assertion_part.validator,
+                                 (environment.path_resolving_environment,))]
+               + ([] if outcome_event(trace, 'validate-post')[1] is not None else
+                  [('get-arg', self._get_argument_to_assertion_part, (environment,)),
+                   ('part-check', self._assertion_part,
+                    (environment, os_services, outcome_event(trace, 'get-arg')[1]))]),
+               'an error of post-sds validation is a HARD_ERROR with its message; else the status of the check (its '
+               'message too, unless a header is put before the message of a FAIL)': lambda self, result, trace:
+               (result.status is PFH_ENUM.HARD_ERROR
+                and result.failure_message is outcome_event(trace, 'validate-post')[1])
+               if outcome_event(trace, 'validate-post')[1] is not None else
+               (result.status is outcome_event(trace, 'part-check')[1].status
+                and (result is outcome_event(trace, 'part-check')[1]
+                     or (result.status is PFH_ENUM.FAIL
+                         and (self._failure_message_header is not None
+                              or result.failure_message is outcome_event(trace, 'part-check')[1].failure_message)))),
+           },
+           raises={HardErrorException: {}, ArbitraryException: {}},
+           raises_only=())
+
+# ----- the sequence of assertion parts: validated iff every part is
+
+M.contract('exactly_lib.symbol.sdv_structure:references_from_objects_with_symbol_references', trusted=True,
+           params=dict(objects=Any_), returns=Any_)
+M.trust('sdv_structure.references_from_objects_with_symbol_references concatenates the `references` of the objects '
+        '(which references an instruction reports: C08)')
+
+M.contract(P_AP + ':SequenceOfCooperativeAssertionParts.__init__',
+           params=dict(self=Inst(ap.SequenceOfCooperativeAssertionParts),
+                       assertion_parts=ListOf(Iface(AssertionPartI))),
+           ensures={
+               'its validator is the conjunction of the validators of ALL parts, in order':
+                   lambda self, assertion_parts:
+                   type(self.validator) is sdv_validation.AndSdvValidator
+                   and len(self.validator.validators) == len(assertion_parts)
+                   and forall_range(0, len(assertion_parts),
+                                    lambda j: self.validator.validators[j] is assertion_parts[j].validator),
+               'runs nothing': lambda trace: trace == [],
+           }, raises_only=())
